@@ -16,7 +16,6 @@ import (
 	"fmt"
 
 	"github.com/ipfs/go-cid"
-	cidlink "github.com/ipld/go-ipld-prime/linking/cid"
 
 	"github.com/sourcenetwork/corekv"
 	"github.com/sourcenetwork/corekv/memory"
@@ -395,16 +394,12 @@ func (vf *VersionedFetcher) merge(c cid.Cid) error {
 		}
 	}
 
-	err = coreblock.ProcessBlock(
-		vf.ctx,
-		mcrdt,
-		block,
-		cidlink.Link{
-			Cid: c,
-		},
-	)
+	// Only the state is replayed (into the temporary store). The heads are those of the
+	// request's transaction: recording the replayed commits there would turn a read into a
+	// write that leaves old commits behind as heads of the document.
+	err = mcrdt.Merge(vf.ctx, block.Delta.GetDelta())
 	if err != nil {
-		return err
+		return coreblock.NewErrMergingDelta(c, err)
 	}
 
 	// handle subgraphs
